@@ -541,3 +541,28 @@ Definition restart_ok (c : cfg) (script : list (op * obs)) : bool :=
 Definition C04_check (c : cfg) (main : list obs) (recs : list (list (op * obs))) : bool :=
   forallb (obs_safe c) main
   && forallb (fun script => forallb (fun p => obs_safe c (snd p)) script && restart_ok c script) recs.
+
+(* ---- recovery, as the theorems name it ---- *)
+Definition dummy_obs : obs := mkobs OErr false [] None.
+(* what a fresh agent process reports after CreateTorrent on disk s *)
+Definition recover (c : cfg) (s : fs) : obs := hd dummy_obs (snd (run c (start s) [OCreate [] []])).
+(* the disk a fresh process leaves after CreateTorrent on disk s *)
+Definition recovered_fs (c : cfg) (s : fs) : fs := w_fs (fst (run c (start s) [OCreate [] []])).
+(* the mutating calls of a download history started on the empty disk *)
+Definition download_trace (c : cfg) (ops : list op) : list call := w_tr (fst (run c (start fs0) ops)).
+(* the pinned code: both fixes off *)
+Definition unfixed (c : cfg) : cfg := mkcfg (c_blob c) (c_pl c) (c_wps c) (c_mi c) (c_lat c) false false.
+Definition fixed (c : cfg) : cfg := mkcfg (c_blob c) (c_pl c) (c_wps c) (c_mi c) (c_lat c) true true.
+(* a restarted download: CreateTorrent, then every piece with the blob's bytes, in the given order *)
+Definition restart_ops (c : cfg) (order : list nat) : list op :=
+  OCreate [] [] :: map (fun i => OWrite i (region c (c_blob c) i) [] []) order.
+Definition last_obs (l : list obs) : obs := last l dummy_obs.
+(* every crash point of a trace recovers safely and the restarted download completes with the blob *)
+Definition sweep_ok (c : cfg) (tr : list call) (order : list nat) : bool :=
+  forallb (fun k =>
+             let s := crash_at fs0 tr k in
+             let obsl := snd (run c (start s) (restart_ops c order)) in
+             forallb (obs_safe c) obsl
+             && out_ok (o_out (hd dummy_obs obsl))
+             && o_complete (last_obs obsl) && opt_bytes_eqb (o_cache (last_obs obsl)) (Some (c_blob c)))
+          (seq 0 (S (length tr))).
